@@ -128,9 +128,37 @@ def coq_build(pre: Callable[[], None] | None = None) -> Build:
     return b
 
 
-def forbidden_words() -> list[str]:
+def transitive_deps(rel: str) -> list[str]:
+    """All theory files (relative to coq/) that `rel` depends on, by coqdep."""
+    files = _v_files()
+    r = sh(["coqdep", "-Q", "theories", "LQ"] + files, cwd=COQ)
+    dep: dict[str, list[str]] = {}
+    for line in r.stdout.splitlines():
+        if ".vo" not in line or ":" not in line:
+            continue
+        lhs, rhs = line.split(":", 1)
+        tgt = [t for t in lhs.split() if t.endswith(".vo")]
+        if not tgt:
+            continue
+        key = tgt[0][:-3] + ".v"
+        dep[key] = [d[:-3] + ".v" for d in rhs.split() if d.endswith(".vo") and d.startswith("theories/")]
+    seen: list[str] = []
+    todo = [rel]
+    while todo:
+        f = todo.pop()
+        if f in seen:
+            continue
+        seen.append(f)
+        todo += dep.get(f, [])
+    return sorted(seen)
+
+
+def forbidden_words(only: Sequence[str] | None = None) -> list[str]:
     hits = []
-    for p in sorted(THEORIES.rglob("*.v")):
+    paths = sorted(THEORIES.rglob("*.v")) if only is None else [COQ / f for f in only]
+    for p in paths:
+        if not p.exists():
+            continue
         txt = p.read_text()
         # strip comments (non-nested is enough for an over-approximating grep:
         # we only *remove* text inside (* *), nested handled by a counter)
@@ -445,8 +473,11 @@ def proof_stage(chk: Check, build: Build, needed: Sequence[str]) -> bool:
     stmts = property_statements(prop) if (COQ / rel).exists() else {}
     chk.coverage["obligations"] = len(stmts)
     chk.coverage["theorems"] = sorted(stmts)
-    broken = [f for f in list(needed) + [rel] if not build.built(f)]
-    fw = forbidden_words()
+    deps = transitive_deps(rel) if (COQ / rel).exists() else []
+    needed = sorted(set(needed) | set(deps))
+    chk.coverage["coq_files"] = needed
+    broken = [f for f in needed + [rel] if not build.built(f)]
+    fw = forbidden_words(needed)
     if fw:
         broken.append("forbidden words: " + "; ".join(fw[:5]))
     audit: dict[str, Any] = {"theorems": {}, "problems": []}
